@@ -1,6 +1,7 @@
 """C26 -- the network host allow-list is enforced on every request (spec: HttpPolicy)."""
 from lib.vcheck import *
 from checks.httpcommon import pipeline, case_of
+from checks.c28 import run_ops
 
 
 def run(ctx):
@@ -16,3 +17,13 @@ def run(ctx):
             ctx.violation("unlisted-reached-transport:%s" % hop, "request %d (%s) reached the transport although no configured pattern matches it" % (k, run["recorded"][k - 1]["uri"]), case_of(v, run))
         if j["else_disallowed"] and v["restricted"]:
             ctx.violation("not-uri-disallowed", "a refused request did not report the URI-disallowed error (%s)" % run["result"], case_of(v, run))
+    # SDK operations that can issue requests, run under a restrictive allow-list: nothing unlisted may reach the transport
+    ops = [{"cfg": {"rmf": True, "ocsp": True, "csf": "all", "tsa": t}, "asset": a, "op": o}
+           for t in (True, False) for a in ("remote_only", "remote_embedded", "embedded") for o in ("read", "sign", "ingredient")]
+    recs = run_ops(ctx, ops, "jpg" if ctx.quick else "jpg,png,webp", allowlist=True)
+    for x in recs:
+        for q in x.get("requests", []):
+            ctx.violation("unlisted-reached-transport:op:%s:%s" % (x["op"], q["kind"]),
+                          "with core.allowed_network_hosts = [only.example.org], %s sent %s %s to the transport" % (x["op"], q["kind"], q["uri"]), x)
+    ctx.cov["traces_validated_against_impl"] += len(recs)
+    ctx.cov["allowlist_operation_runs"] = len(recs)
